@@ -93,6 +93,8 @@ def coq_oq(x):
 
 
 def coq_obs(o):
+    if isinstance(o, dict):
+        return "(OV [])"                                   # result of an illegal shape: matches no model output of a non-empty array
     if o == "ValueError":
         return "OErr"
     if isinstance(o, list):
@@ -140,7 +142,7 @@ def gen_metric_case(rng, i):
         p = rand_arr(rng, shape)
     c = {"kind": "metric", "fn": fn, "dw": rng.random() < 0.5, "y": y, "p": p}
     if fn == "nrmse":
-        c["norm"] = NORMS[(i // 5) % 4]
+        c["norm"] = rng.choice(NORMS)
         if rng.random() < 0.15:
             nv = core.dyadic(rng, 8, 2)
             c["norm_value"] = nv if nv != 0 else Fraction(3, 2)
@@ -233,6 +235,8 @@ def run_impl(c):
         except ValueError:
             return "ValueError"
         r = np.asarray(r)
+        if r.ndim >= 2:                                    # never a legal result: neither a scalar nor one value per feature
+            return {"badshape": list(r.shape)}
         return float(r) if r.ndim == 0 else [float(x) for x in r.tolist()]
     if c["kind"] == "effmat":
         O = obsmod()
@@ -282,6 +286,8 @@ def nontrivial(c, o):
     if c["kind"] == "metric":
         if o == "ValueError":
             return True
+        if isinstance(o, dict):
+            return False
         vals = o if isinstance(o, list) else [o]
         return len(flat(c["y"])) >= 2 and any(math.isfinite(v) and v != 0 for v in vals)
     if c["kind"] == "effmat":
@@ -416,6 +422,9 @@ def _judge_metric(c):
         return None
     if o == "ValueError":
         return _viol("%s:rejected" % c["fn"], "%s rejects equal-shaped arrays" % c["fn"], c, None, o)
+    if isinstance(o, dict):
+        return _viol("%s:result-shape" % fnkey(c), "%s returns an array of shape %s (neither a scalar nor one value per feature)"
+                     % (c["fn"], o["badshape"]), c, None, o)
     ry, rp = rows_of(y), rows_of(p)
     if c["dw"] and ry is not None:
         nf = len(ry[0])
